@@ -57,6 +57,18 @@ def shrink(case):
 
 def gen_pts(rng, sc, n, dyadic):
     style = rng.random()
+    if rng.random() < 0.15:
+        # out-and-back along an exactly vertical or horizontal line, with a small lateral wobble on some fixes: fixes that project beyond
+        # the ends of an axis-parallel chord
+        vert = rng.random() < 0.6
+        c0 = rng.randint(-5, 5) * sc; t = 0.0; pts = []
+        for i in range(n):
+            t += rng.randint(-12, 12) * sc
+            w = rng.choice([0, 0, 0, 1, -1]) * sc * rng.choice([0.01, 0.5])
+            pts.append([c0 + w, t] if vert else [t, c0 + w])
+        pts[0] = [c0, pts[0][1]] if vert else [pts[0][0], c0]
+        pts[-1] = [c0, pts[-1][1]] if vert else [pts[-1][0], c0]
+        return pts
     pts = []
     x = 0.0; y = 0.0
     for i in range(n):
@@ -129,6 +141,54 @@ Definition ok (c : list (float * float) * float * list nat) : bool := let '(pts,
     klass=lambda c, o: 'loop' if c['pts'][0] == c['pts'][-1] else ('dup' if any(a == b for a, b in zip(c['pts'], c['pts'][1:])) else 'plain'))
 
 
+# ------------------------------------------------------------------ distance_to_segment on its own
+
+def gen_ds(rng, n, tier):
+    out = []
+    for _ in range(n):
+        sc = rng.choice([1, 0.1, 0.37, 0.25])
+        x1 = rng.randint(-50, 50) * sc; y1 = rng.randint(-50, 50) * sc
+        k = rng.random()
+        if k < 0.3:
+            x2, y2 = x1, y1 + rng.randint(-40, 40) * sc           # exactly vertical (or a point)
+        elif k < 0.5:
+            x2, y2 = x1 + rng.randint(-40, 40) * sc, y1           # exactly horizontal
+        else:
+            x2, y2 = x1 + rng.randint(-40, 40) * sc, y1 + rng.randint(-40, 40) * sc
+        t = rng.choice([-0.7, -0.1, 0.0, 0.3, 1.0, 1.2, 2.5, rng.uniform(-1, 2)])
+        off = rng.choice([0, 0, 1, -3, 0.01]) * sc
+        L = math.hypot(x2 - x1, y2 - y1) or 1.0
+        x0 = x1 + t * (x2 - x1) - off * (y2 - y1) / L; y0 = y1 + t * (y2 - y1) + off * (x2 - x1) / L
+        out.append({'p': [x0, y0], 'a': [x1, y1], 'b': [x2, y2]})
+    return out
+
+
+def run_ds(case):
+    from tracklib.util.geometry import distance_to_segment
+    return {'d': float(distance_to_segment(case['p'][0], case['p'][1], case['a'][0], case['a'][1], case['b'][0], case['b'][1]))}
+
+
+def oracle_ds(case, obs):
+    if 'exc' in obs:
+        return 'distance_to_segment raised %s' % obs['exc']
+    d = seg_dist(case['p'], case['a'], case['b'])
+    if abs(obs['d'] - d) > 1e-9 * (1 + abs(d) + max(abs(v) for v in case['p'] + case['a'] + case['b'])):
+        return 'distance_to_segment(%r, segment %r-%r) = %r, the distance to the segment is %r' % (case['p'], case['a'], case['b'], obs['d'], d)
+    return None
+
+
+S_DS = Stream(
+    name='distance_to_segment', budget={'quick': 1500, 'thorough': 40000},
+    rule=('util.geometry.distance_to_segment on its own: segments of every orientation incl. exactly vertical, exactly horizontal and degenerate (a point), query points whose foot falls before, at, inside and beyond '
+          'the ends, on the supporting line or beside it; compared bit for bit with the binary64 instance of the model and with the exact distance to the segment'),
+    imports='From Coq Require Import List PrimFloat Bool.\nImport ListNotations.\nFrom TL Require Import Model.Num Model.SimplifyG.',
+    case_type='float * float * float * float * float * float * float',
+    check_def="Definition ok (c : float * float * float * float * float * float * float) : bool := let '(x0, y0, x1, y1, x2, y2, d) := c in PrimFloat.eqb (distance_to_segment FNum x0 y0 x1 y1 x2 y2) d.",
+    generate=gen_ds, run_impl=run_ds,
+    coq_case=lambda c, o: None if 'exc' in o else '(%s, %s, %s, %s, %s, %s, %s)' % (fl(c['p'][0]), fl(c['p'][1]), fl(c['a'][0]), fl(c['a'][1]), fl(c['b'][0]), fl(c['b'][1]), fl(o['d'])),
+    oracle=oracle_ds, klass=lambda c, o: 'vertical' if c['a'][0] == c['b'][0] else ('horizontal' if c['a'][1] == c['b'][1] else 'oblique'))
+
+
 # ------------------------------------------------------------------ Visvalingam
 
 def gen_vis(rng, n, tier):
@@ -181,4 +241,4 @@ Definition ok (c : list (Q * Q) * Q * list nat) : bool := let '(pts, eps, kept) 
     nontrivial=lambda c, o: len(c['pts']) >= 3,
     klass=lambda c, o: 'loop' if c['pts'][0] == c['pts'][-1] else 'open')
 
-STREAMS = [S_DP, S_VIS]
+STREAMS = [S_DP, S_DS, S_VIS]
